@@ -19,6 +19,9 @@ def inWf : Rib.In → Prop
   | .del op => op.ty = .delete
   | _ => True
 
+instance (i : Rib.In) : Decidable (inWf i) := by
+  cases i <;> simp only [inWf] <;> infer_instance
+
 /-- every held operation is an ADD or REPLACE -/
 def PendWf (s : Rib) : Prop :=
   ∀ id op, s.pend.get? id = some op → (op.ty = .add ∨ op.ty = .replace)
